@@ -122,6 +122,7 @@ type pvScen struct {
 	dec      []*pvss.PubVerShare
 	decL     []pvLog
 	bindFlag string // "<bindEnc><bindDec>" as probed on the real code
+	vs       []*big.Int // the dealer's proof nonces (replayed random stream)
 }
 
 // real builds the real object for a share in discrete-log form.
@@ -226,6 +227,7 @@ func newPvScen(r *pvRun, h *shG, rng *kc.Rng, n, t int, secretMode int) *pvScen 
 	for i := range vs {
 		vs[i] = h.big(h.g.Scalar().Pick(rp))
 	}
+	sc.vs = vs
 	line := fmt.Sprintf("pvss %s enc %s %s %s %s %s", kc.HexN(q), kc.HexN(sc.hl), pvHexBigs(sc.xs), pvHexBigs(sc.coeffs), pvHexBigs(vs), kc.HexN(sc.c))
 	_, commits := pub.Info()
 	r.add(pvCase{kind: "EncShares", line: line, nt: true, check: func(model string) bool {
@@ -248,6 +250,86 @@ func newPvScen(r *pvRun, h *shG, rng *kc.Rng, n, t int, secretMode int) *pvScen 
 		return h.pointsMatch(commits, f[1])
 	}})
 	return sc
+}
+
+// c13OffsetDealer: a dealer that builds the batch itself and adds offsetting errors +D / -D to two encrypted
+// shares, with the global challenge and all responses computed over the altered list. Each altered share
+// fails its own consistency equation (vH_i = r_i X_i + c sX_i is off by c·D) and must be excluded from the
+// batch result; only the sum of the equations still balances.
+func c13OffsetDealer(r *pvRun, sc *pvScen, rng *kc.Rng) {
+	h, n := sc.h, sc.n
+	if n < 2 || len(sc.vs) != n || len(sc.coeffs) == 0 {
+		return
+	}
+	i := rng.Intn(n)
+	j := (i + 1 + rng.Intn(n-1)) % n
+	D := h.pt(pvNonzero(rng, h.q))
+	pp := share.CoefficientsToPriPoly(h.g, func() []kyber.Scalar {
+		var cs []kyber.Scalar
+		for _, c := range sc.coeffs {
+			cs = append(cs, h.sc(c))
+		}
+		return cs
+	}())
+	enc := make([]*pvss.PubVerShare, n)
+	sH := make([]kyber.Point, n)
+	for k := 0; k < n; k++ {
+		cp := *sc.enc[k]
+		cp.S.V = sc.enc[k].S.V.Clone()
+		if k == i {
+			cp.S.V.Add(cp.S.V, D)
+		}
+		if k == j {
+			cp.S.V.Sub(cp.S.V, D)
+		}
+		enc[k] = &cp
+		sH[k] = sc.pub.Eval(uint32(k)).V
+	}
+	// the global challenge over the altered list, as pvss.computeGlobalChallenge does
+	hh := sc.su.Hash()
+	for k := 0; k < n; k++ {
+		sH[k].MarshalTo(hh)
+	}
+	for k := 0; k < n; k++ {
+		enc[k].S.V.MarshalTo(hh)
+	}
+	for k := 0; k < n; k++ {
+		enc[k].P.VG.MarshalTo(hh)
+	}
+	for k := 0; k < n; k++ {
+		enc[k].P.VH.MarshalTo(hh)
+	}
+	c := h.g.Scalar().Pick(sc.su.XOF(hh.Sum(nil)))
+	for k := 0; k < n; k++ {
+		sk := pp.Eval(uint32(k)).V
+		enc[k].P.C = c.Clone()
+		enc[k].P.R = h.g.Scalar().Sub(h.sc(sc.vs[k]), h.g.Scalar().Mul(sk, c))
+	}
+	var E []*pvss.PubVerShare
+	var err error
+	pvGuard(r.c, "VerifyEncShareBatch/offset-dealer", func() { _, E, err = pvss.VerifyEncShareBatch(sc.su, sc.H, sc.X, sH, sc.pub, enc) })
+	r.c.Eval(1)
+	r.c.CountKind(h.name + ":offset-dealer")
+	if err != nil {
+		return // refusing the whole batch excludes the altered shares too
+	}
+	kept := map[uint32]bool{}
+	for _, e := range E {
+		kept[e.S.I] = true
+	}
+	// control: the unaltered positions are consistent with the new challenge and are kept
+	others := 0
+	for k := 0; k < n; k++ {
+		if k != i && k != j && kept[uint32(k)] {
+			others++
+		}
+	}
+	if kept[uint32(i)] || kept[uint32(j)] {
+		r.c.Violation("C13:VerifyEncShareBatch:offsetting-errors-accepted", fmt.Sprintf("%s: n=%d t=%d: encrypted shares %d and %d were altered by +D / -D (challenge and responses recomputed by the dealer) and are in the batch result", h.name, n, sc.t, i, j),
+			map[string]any{"group": h.name, "n": n, "t": sc.t, "i": i, "j": j})
+	} else if others != n-2 {
+		r.c.Unshown("harness:c13-offset-dealer", fmt.Sprintf("%s: n=%d: the %d unaltered shares of the dealer-built batch should verify, %d do", h.name, n, n-2, others), nil)
+	}
 }
 
 // finish is called after the model confirmed the logs of the dealer output (encL set).
@@ -1110,6 +1192,7 @@ func runC13(c *kc.Ctx) {
 						continue
 					}
 					sc.bindFlag = probe
+					c13OffsetDealer(r, sc, rng.Fork(fmt.Sprint("offset", n, t, rep)))
 					srng := rng.Fork(fmt.Sprint("mut", n, t, rep))
 					stage2 = append(stage2, func() { c13Stage2(r, sc, srng, qh) })
 					stage3 = append(stage3, st3{sc, rng.Fork(fmt.Sprint("rec", n, t, rep)), n <= exhN})
